@@ -29,7 +29,8 @@ pub trait FdExt: AsFd {
     /// utils/fd.rs FdExt::metadata (U15)
     #[verifier::external_body]
     fn metadata(&self) -> (r: Result<Metadata, Error>)
-        ensures r matches Ok(m) ==> m.symlink() == fs_is_symlink(ino_of(self.fd_id()) as int)
+        ensures r matches Ok(m) ==> m.symlink() == fs_is_symlink(ino_of(self.fd_id()) as int),
+            static_no_faults() ==> r is Ok,
     { unimplemented!() }
     #[verifier::external_body]
     fn is_magiclink_filesystem(&self) -> (r: Result<bool, Error>) { unimplemented!() }
